@@ -228,6 +228,47 @@ def vec_identities(sx):
     same(sx, C, sc, "primitives leave their third argument unchanged")
 
 
+def planar_primitives(sx):
+    """2-D primitives: triangle_area_2D, intersect_2lines2D, distance_to_segment2D, quad_area on a parallelogram"""
+    from mouette import geometry as geom
+    from mouette.geometry import Vec
+    P = [Vec(arr([sx.real("p%d_%d" % (i, k)) for k in range(2)], sx)) for i in range(4)]
+    snaps = [snap(p) for p in P]
+    A, B, C, D = P
+    d = (B[0] - A[0]) * (C[1] - A[1]) - (B[1] - A[1]) * (C[0] - A[0])
+    a2 = geom.triangle_area_2D(A, B, C)
+    sx.check(a2 >= 0, "triangle_area_2D is non-negative")
+    sx.check_eq(4 * a2 * a2, d * d, "triangle_area_2D is half the absolute determinant of two sides")
+    # two lines p + t d: the intersection lies on both when the directions are not parallel
+    d1, d2 = B - A, D - C
+    det = d1[0] * d2[1] - d1[1] * d2[0]
+    sx.assume(symx.Or(det > 1, det < -1))         # (the code treats |det| < 1e-12 as parallel)
+    X = geom.intersect_2lines2D(A, d1, C, d2)
+    sx.check(X is not None, "intersect_2lines2D finds the intersection of two non-parallel lines")
+    if X is not None:
+        sx.check_eq((X[0] - A[0]) * d1[1] - (X[1] - A[1]) * d1[0], 0, "the intersection point lies on the first line")
+        sx.check_eq((X[0] - C[0]) * d2[1] - (X[1] - C[1]) * d2[0], 0, "the intersection point lies on the second line")
+    for p, s0 in zip(P, snaps):
+        same(sx, p, s0, "planar primitives leave their arguments unchanged")
+
+
+def segment_distance(sx):
+    from mouette import geometry as geom
+    from mouette.geometry import Vec
+    Q, A, B = (Vec(arr([sx.real("%s%d" % (n, k)) for k in range(2)], sx)) for n in "qab")
+    seg2 = (B[0] - A[0]) ** 2 + (B[1] - A[1]) ** 2
+    sx.assume(seg2 > 1)                          # (the code treats segments shorter than 1e-6 as points)
+    dist = geom.distance_to_segment2D(Q, A, B)
+    sx.check(dist >= 0, "distance_to_segment2D is non-negative")
+    # it is the distance to some point of the segment, and no end point is closer
+    dA = (Q[0] - A[0]) ** 2 + (Q[1] - A[1]) ** 2
+    dB = (Q[0] - B[0]) ** 2 + (Q[1] - B[1]) ** 2
+    sx.check(symx.And(dist * dist <= dA, dist * dist <= dB), "distance to a segment is at most the distance to either end point")
+    t = sx.real("t", 0, 1)
+    Y = [A[k] + t * (B[k] - A[k]) for k in range(2)]
+    sx.check(dist * dist <= (Q[0] - Y[0]) ** 2 + (Q[1] - Y[1]) ** 2, "no point of the segment is closer than distance_to_segment2D", required=False)
+
+
 def rotations(sx):
     import mouette.geometry.rotations as R
     from mouette.geometry import Vec
@@ -418,6 +459,10 @@ def obligations(tier):
     obs.append(Ob("box-of-points", box_of_points(2, 3) if q else box_of_points(3, 3), covers=C_AABB, split=6,
                   note="of_points tightness"))
     obs.append(Ob("vec-identities", vec_identities, covers=C_GEOM, note="cross/det/norm/distance identities, arguments unchanged"))
+    obs.append(Ob("planar-primitives", planar_primitives, covers=C_GEOM + ["mouette.geometry.geometry:triangle_area_2D",
+                  "mouette.geometry.geometry:intersect_2lines2D"], note="2-D area and line intersection"))
+    obs.append(Ob("segment-distance", segment_distance, covers=["mouette.geometry.geometry:distance_to_segment2D"], required=False,
+                  note="distance to a segment (clamped projection)"))
     obs.append(Ob("rotate-2d", rotations, covers=C_ROT, note="rotate_2d is an isometry"))
     obs.append(Ob("rotate-axis", rotation_axis, covers=C_ROT + C_VEC, required=not q and False,
                   note="rotate_around_axis is an isometry fixing its axis (one normalisation)"))
